@@ -55,6 +55,7 @@ type Ctx struct {
 	memSorts  map[string]string
 	funDecls  []string
 	constGlobalsUsed []string
+	structIDs map[string]int
 }
 
 func NewCtx(mode Mode, specs *SpecEnv) *Ctx {
@@ -681,6 +682,26 @@ func (c *Ctx) Prelude() string {
 }
 
 // ---- two-level memory: scalar array elements live in arr_<key> : Array Loc (Array IDX T) ----
+
+// lfield builds the location of field i of the struct (of type st) at loc. Field ids are unique per
+// (struct type, field), so fields of different struct types are distinct locations by construction:
+// Go's type system (absent unsafe) never lets them alias.
+func (c *Ctx) lfield(loc string, st *types.Struct, i int) string {
+	return fmt.Sprintf("(lfield %s %d)", loc, c.fid(st, i))
+}
+
+func (c *Ctx) fid(st *types.Struct, i int) int {
+	if c.structIDs == nil {
+		c.structIDs = map[string]int{}
+	}
+	key := st.String()
+	base, ok := c.structIDs[key]
+	if !ok {
+		base = (len(c.structIDs) + 1) * 1024
+		c.structIDs[key] = base
+	}
+	return base + i
+}
 
 // splitLelem recognises a location term of the syntactic form (lelem B I).
 func splitLelem(loc string) (b, i string, ok bool) {
